@@ -118,9 +118,65 @@ func init() {
 			}
 			return in
 		},
+		zz + "And": func(fr *frame, args []value) value {
+			return fr.i.mkBool(fr.i.ctx.And(fr.i.boolTerm(args[0]), fr.i.boolTerm(args[1])))
+		},
+		zz + "Or": func(fr *frame, args []value) value {
+			return fr.i.mkBool(fr.i.ctx.Or(fr.i.boolTerm(args[0]), fr.i.boolTerm(args[1])))
+		},
+		zz + "Implies": func(fr *frame, args []value) value {
+			return fr.i.mkBool(fr.i.ctx.Or(fr.i.ctx.Not(fr.i.boolTerm(args[0])), fr.i.boolTerm(args[1])))
+		},
+		zz + "Not": func(fr *frame, args []value) value {
+			return fr.i.mkBool(fr.i.ctx.Not(fr.i.boolTerm(args[0])))
+		},
+		zz + "B2I": func(fr *frame, args []value) value {
+			if b, ok := args[0].(bool); ok {
+				if b {
+					return int(1)
+				}
+				return int(0)
+			}
+			r, ok := fr.i.iteValue(fr.i.boolTerm(args[0]), int(1), int(0))
+			if !ok {
+				panic(fr.i.unsupported("B2I"))
+			}
+			return r
+		},
 		zz + "IsSymbolic": func(fr *frame, args []value) value { return true },
 		zz + "Reset":      func(fr *frame, args []value) value { return nil },
 
+		// ---- pgregory.net/rand: every draw is an input (documented contract only) ----
+		"pgregory.net/rand.New": func(fr *frame, args []value) value {
+			var cell value = zero(deref(fr.fn.Signature.Results().At(0).Type()))
+			return &cell
+		},
+		"(*pgregory.net/rand.Rand).Float64": func(fr *frame, args []value) value {
+			s := fr.i.nondet("f64", types.Uint64, "rand.Float64").(sym)
+			x := sym{t: s.t, k: types.Float64}
+			c := fr.i.ctx
+			ft := fr.i.fpTerm(x)
+			fr.i.assume(c.And(c.FPCmp("fp.leq", fr.i.fpTerm(float64(0)), ft), c.FPCmp("fp.lt", ft, fr.i.fpTerm(float64(1)))))
+			return x
+		},
+		"(*pgregory.net/rand.Rand).Float32": func(fr *frame, args []value) value {
+			s := fr.i.nondet("f32", types.Uint32, "rand.Float32").(sym)
+			x := sym{t: s.t, k: types.Float32}
+			c := fr.i.ctx
+			ft := fr.i.fpTerm(x)
+			fr.i.assume(c.And(c.FPCmp("fp.leq", fr.i.fpTerm(float32(0)), ft), c.FPCmp("fp.lt", ft, fr.i.fpTerm(float32(1)))))
+			return x
+		},
+		"(*pgregory.net/rand.Rand).Uint64":  func(fr *frame, args []value) value { return fr.i.nondet("u64", types.Uint64, "rand.Uint64") },
+		"(*pgregory.net/rand.Rand).Uint32":  func(fr *frame, args []value) value { return fr.i.nondet("u32", types.Uint32, "rand.Uint32") },
+		"(*pgregory.net/rand.Rand).Uint64n": func(fr *frame, args []value) value { return fr.i.randBelow(args[1], types.Uint64, "u64") },
+		"(*pgregory.net/rand.Rand).Uint32n": func(fr *frame, args []value) value { return fr.i.randBelow(args[1], types.Uint32, "u32") },
+		"(*pgregory.net/rand.Rand).next64": func(fr *frame, args []value) value {
+			panic(fr.i.unsupported("raw pgregory.net/rand draw (next64)"))
+		},
+		"(*pgregory.net/rand.Rand).next32": func(fr *frame, args []value) value {
+			panic(fr.i.unsupported("raw pgregory.net/rand draw (next32)"))
+		},
 		// ---- math ----
 		"math.Float64bits": func(fr *frame, args []value) value {
 			switch x := args[0].(type) {
@@ -187,7 +243,7 @@ func init() {
 				if x.t.Sort.K == smt.KInt {
 					c := fr.i.ctx
 					m := bigMax(new(big.Int).Abs(x.lo), new(big.Int).Abs(x.hi))
-					return sym{t: c.Ite(c.ILt(x.t, c.IntConst64(0)), c.INeg(x.t), x.t), k: x.k, lo: big.NewInt(0), hi: m}
+					return sym{t: c.Ite(c.ILt(x.t, c.IntConst64(0)), c.INeg(x.t), x.t), k: x.k, lo: big.NewInt(0), hi: m, sc: x.sc}
 				}
 				if x.t.Sort.K == smt.KBV {
 					return sym{t: fr.i.ctx.BVAnd(x.t, fr.i.ctx.BVConst(^uint64(0)>>1, 64)), k: x.k}
@@ -348,6 +404,9 @@ func mathRound(mode string, conc func(float64) float64) intrinsicFn {
 			return conc(x)
 		case sym:
 			if x.t.Sort.K == smt.KInt {
+				if x.sc > 0 {
+					return fr.i.norm(fr.i.fixRound(x, mode))
+				}
 				return x
 			}
 			return sym{t: fr.i.ctx.FPRound(fr.i.fpTerm(x), mode), k: types.Float64}
@@ -546,3 +605,29 @@ func sortSlice(stable bool) intrinsicFn {
 var _ = bits.Len
 var _ = fmt.Sprint
 var _ *ssa.Function
+
+// randBelow models Uint64n/Uint32n: 0 for n == 0, otherwise an arbitrary value below n.
+func (i *Interp) randBelow(n value, k types.BasicKind, kind string) value {
+	c := i.ctx
+	if !isSym(n) {
+		if rawBits(n) == 0 {
+			// the tape still records a draw so that native replay stays aligned
+			i.nondet(kind, k, "rand.n")
+			return mkConcreteInt(k, 0)
+		}
+	}
+	x := i.nondet(kind, k, "rand.n").(sym)
+	var xt, nt *smt.Term
+	if isIntMode(n) {
+		// Int-mode bound: compare as integers
+		t, _, _ := i.intTerm(n)
+		xt, nt = c.BV2Nat(x.t), t
+		zero := c.Eq(nt, c.IntConst64(0))
+		i.assume(c.Or(c.And(zero, c.Eq(xt, c.IntConst64(0))), c.ILt(xt, nt)))
+		return x
+	}
+	xt, nt = x.t, i.bvTerm(n)
+	zero := c.Eq(nt, c.BVConst(0, kindWidth(k)))
+	i.assume(c.Or(c.And(zero, c.Eq(xt, c.BVConst(0, kindWidth(k)))), c.BVUlt(xt, nt)))
+	return x
+}
